@@ -18,6 +18,7 @@ import (
 
 // brokerOps abstracts the three broker kinds for history scenarios.
 type brokerOps struct {
+	raw    func(side byte, n int) error // mux only: a peer that opens a stream, writes n bytes of the id 7 and closes it
 	kind   string
 	dial   func(side byte, id uint32) error // dial (+ first RPC for gRPC kinds); closes what it opened
 	accept func(side byte, id uint32) error // accept (+ serve one exchange)
@@ -70,6 +71,20 @@ func newBrokerOps(x *vs.Exec, kind string) (*brokerOps, error) {
 				return err
 			},
 			close: func() { m.hs.Close(); m.ps.Close() },
+			raw: func(s byte, n int) error {
+				sess := m.hs
+				if s == 'p' {
+					sess = m.ps
+				}
+				st, err := sess.OpenStream()
+				if err != nil {
+					return err
+				}
+				if n > 0 {
+					st.Write([]byte{7, 0, 0, 0}[:n])
+				}
+				return st.Close()
+			},
 		}, nil
 	case "grpc", "grpcmux":
 		pr, err := newGRPCPair(x, grpcPairOpts{mux: kind == "grpcmux"})
@@ -142,6 +157,10 @@ func init() {
 				op := ops.dial
 				if ev[0] == 'A' {
 					op = ops.accept
+				}
+				if ev[0] == 'X' { // peer closes mid-negotiation: X<side><bytes of the id written before closing>
+					nb := atoi(ev[2:])
+					op = func(byte, uint32) error { return ops.raw(side, nb) }
 				}
 				blocking := !(ev[0] == 'A' && ops.kind != "mux") // gRPC AcceptAndServe serves until close
 				run := func() {
@@ -225,6 +244,15 @@ func init() {
 								continue
 							}
 							out = append(out, explore.Params{"kind": kind, "hist": a + "," + g + b})
+						}
+					}
+				}
+				if kind == "mux" {
+					// a peer that opens a stream and closes it after 0, 2 or all 4 bytes of the id
+					for _, xe := range []string{"Xh0", "Xh2", "Xp2", "Xh4"} {
+						out = append(out, explore.Params{"kind": kind, "hist": xe})
+						for _, b := range evs {
+							out = append(out, explore.Params{"kind": kind, "hist": xe + "," + b}, explore.Params{"kind": kind, "hist": b + "," + xe})
 						}
 					}
 				}
